@@ -57,15 +57,28 @@ Fixpoint tab_find (s : string) (t : ltab) : option (list lrow) :=
   | (n, rows) :: r => if String.eqb s n then Some rows else tab_find s r
   end.
 
-Definition tab_load (t : ltab) (s : string) (i : Z) (c : octx value) : value * octx value :=
+(* call stamp (harness stacks with c_stamp): a loader called by the ModeWrapper reads the call counter ctx["#"],
+   increments it and pairs every item it returns with the counter it read -- members of one joint load carry the same
+   stamp, and it is visible which of several loads of an item was delivered *)
+Definition stamp_v (n : Z) (v : value) : value :=
+  match v with
+  | Tup l => Tup (map (fun m => Tup [m; VInt n]) l)
+  | _ => Tup [v; VInt n]
+  end.
+
+Definition tab_load (stamp : bool) (t : ltab) (s : string) (i : Z) (c : octx value) : value * octx value :=
   match tab_find s t with
   | None => (VNone, c)
   | Some rows =>
       let '(v, ws) := nth (Z.to_nat i) rows (VNone, []) in
-      (v, match c with
-          | None => None
-          | Some d => Some (fold_left (fun d kv => ctx_set (fst kv) (snd kv) d) ws d)
-          end)
+      match c with
+      | None => (v, None)
+      | Some d =>
+          if stamp then
+            let n := match lookup value "#" d with Some (VInt n) => n | _ => 0 end in
+            (stamp_v n v, Some (fold_left (fun d kv => ctx_set (fst kv) (snd kv) d) ws (ctx_set "#" (VInt (n + 1)) d)))
+          else (v, Some (fold_left (fun d kv => ctx_set (fst kv) (snd kv) d) ws d))
+      end
   end.
 
 (* dict equality (keys are unique on both sides) *)
@@ -120,6 +133,7 @@ Record case_t := {
   c_has_type : list string;
   c_has : list string;
   c_tab : ltab;
+  c_stamp : bool;
   c_mode : string;
   c_rc : bool;
   c_init : nat;                  (* 0 = constructed; 1,2,3 = the constructor's exception *)
@@ -136,7 +150,7 @@ Definition mkstack (c : case_t) : stack value :=
   {| s_len := c_len c; s_fused_ops := c_groups c; s_req_ctx := c_req c;
      s_has_type := fun s => mem String.eqb s (c_has_type c);
      s_has := fun s => mem String.eqb s (c_has c);
-     s_load := tab_load (c_tab c) |}.
+     s_load := tab_load (c_stamp c) (c_tab c) |}.
 
 Definition named_only (names : list string) : list string :=
   filter (fun s => match classify s with Named _ => true | _ => false end) names.
